@@ -273,6 +273,24 @@ table_guard(void)
             i = e;
             continue;
         }
+        /* a forward prototype is not a definition: its statement ends in ';'
+         * before any '{' */
+        {
+            size_t q = a;
+            int depth = 0;
+            for (; q < n; ++q) {
+                if (text[q] == '(')
+                    ++depth;
+                else if (text[q] == ')')
+                    --depth;
+                else if (depth == 0 && (text[q] == ';' || text[q] == '{'))
+                    break;
+            }
+            if (q < n && text[q] == ';') {
+                i = e;
+                continue;
+            }
+        }
         if (!in_table(name)) {
             /* a function the table does not know: it cannot be driven, but that
              * must not stop the functions that are known from being checked */
